@@ -104,7 +104,7 @@ func (fx *FnCtx) oneGlobal(g *ssa.Global) {
 						app("Bool", "<", Term{"0", "Int"}, app("Int", "s_arr", gv)), app("Bool", "<", app("Int", "s_arr", gv), Term{"next0", "Int"}),
 						app("Bool", "slice_ok", gv)))
 					for k, e := range elems {
-						fx.assumeDef(eq(app(es, "select", inner, app("Int", "sidx", gv, intLit(int64(k)))), e))
+						fx.assumeDef(eq(app(es, "select", inner, eidx(gv, intLit(int64(k)))), e))
 					}
 					fx.notes[fmt.Sprintf("initial value of %s.%s taken from its composite literal (%d elements); no store to it exists outside init", g.Pkg.Pkg.Name(), g.Name(), len(elems))] = true
 				}
